@@ -134,6 +134,12 @@ def material(kind, root):
     if kind == 'n':
         node = TexSoup('\\n{\\m{1}}').n.copy()
         return [node], [build(node.expr)]
+    if kind == 'g':
+        node = TexSoup('{\\k \\n{\\m{1}}}').n.copy()      # parsed elsewhere, where it sat inside a group
+        return [node], [build(node.expr)]
+    if kind == 'i':
+        node = TexSoup('\\begin{itemize}\\item \\n{\\m{1}} z\\end{itemize}').n.copy()      # ... inside an item
+        return [node], [build(node.expr)]
     if kind == 'a':
         x = L(1)
         node = TexSoup('\\a{' + x + '}').a.copy()       # may become the textual twin of an existing node
